@@ -280,6 +280,7 @@ PROPS = {
             rap("truncation", "^TestC03Truncation$", 12, 150, 10, 16),
             rap("descriptor_lengths", "^TestC03DescriptorLengths$", 150, 1500, 4, 16),
             det("short_sections", "^TestC03ShortSections$"),
+            det("skip_run_depth", "^TestC03SkipRunDepth$"),
             {"name": "fuzz_bytes", "fuzz": "FuzzC03", "thorough": {"fuzztime": "150s", "timeout": 600}},
             {"name": "fuzz_sections", "fuzz": "FuzzC03Sections", "thorough": {"fuzztime": "120s", "timeout": 600}},
             {"name": "fuzz_structured", "fuzz": "FuzzC03Structured", "thorough": {"fuzztime": "120s", "timeout": 600}},
